@@ -230,6 +230,38 @@ Definition variant_sig (e : endian) (b : bytes) (pos : N) : R (sig * N) :=
       end
   end.
 
+(* loops of the container decoders, parametrised by the decoder of an element *)
+Fixpoint arr_loop (elem : N -> R N) (b : bytes) (al endp : N) (k : nat) (q : N) {struct k} : R N :=
+  if q =? endp then Ok q                                   (* ArrayDeserializer::done *)
+  else match k with
+       | O => Err EFuel
+       | S k' =>
+           let* q1 := parse_padding b q al in              (* next_element: padding of the element *)
+           let* q2 := elem q1 in
+           if endp <? q2 then Err EData                    (* next: pos > start + len *)
+           else arr_loop elem b al endp k' q2
+       end.
+Fixpoint dict_loop (kd vd : N -> R N) (b : bytes) (endp : N) (k : nat) (q : N) {struct k} : R N :=
+  if q =? endp then Ok q
+  else match k with
+       | O => Err EFuel
+       | S k' =>
+           let* q1 := parse_padding b q 8 in               (* dict entries are 8-aligned *)
+           let* q2 := kd q1 in
+           if endp <? q2 then Err EData
+           else
+             let* q3 := vd q2 in
+             if endp <? q3 then Err EData else dict_loop kd vd b endp k' q3
+       end.
+Section StructGo.   (* the field decoder is a parameter outside the fixpoint (as in List.map), so that nested recursion is accepted *)
+  Variable fld : sig -> N -> R N.
+  Fixpoint struct_go (l : list sig) (q : N) {struct l} : R N :=
+    match l with
+    | [] => Ok q
+    | f :: r => let* q' := fld f q in struct_go r q'
+    end.
+End StructGo.
+
 (* [vf] bounds the nesting of variants (each level increments the variant depth, limited to 64 in total: Proofs show the
    bound is never reached); arrays iterate at most once per byte (every element has at least one byte).
    File descriptors: Message::from_bytes is given a Data without descriptors, every index is unknown (Error::UnknownFd). *)
@@ -252,42 +284,17 @@ Fixpoint de_value (vf : nat) : sig -> depths -> endian -> bytes -> N -> R N :=
         let* d' := inc_array d in
         let* (n, p1) := de_u32 e b p0 in
         let* start := parse_padding b p1 (align_dbus c) in
-        let endp := start + n in
-        (fix loop (k : nat) (q : N) {struct k} : R N :=
-           if q =? endp then Ok q
-           else match k with
-                | O => Err EFuel
-                | S k' =>
-                    let* q1 := parse_padding b q (align_dbus c) in
-                    let* q2 := on_sig c d' e b q1 in
-                    if endp <? q2 then Err EData else loop k' q2
-                end) (S (length b)) start
+        arr_loop (on_sig c d' e b) b (align_dbus c) (start + n) (S (length b)) start
     | SDict kt vt =>
         let* p0 := parse_padding b pos 4 in
         let* d' := inc_array d in
         let* (n, p1) := de_u32 e b p0 in
         let* start := parse_padding b p1 8 in
-        let endp := start + n in
-        (fix loop (k : nat) (q : N) {struct k} : R N :=
-           if q =? endp then Ok q
-           else match k with
-                | O => Err EFuel
-                | S k' =>
-                    let* q1 := parse_padding b q 8 in
-                    let* q2 := on_sig kt d' e b q1 in
-                    if endp <? q2 then Err EData
-                    else
-                      let* q3 := on_sig vt d' e b q2 in
-                      if endp <? q3 then Err EData else loop k' q3
-                end) (S (length b)) start
+        dict_loop (on_sig kt d' e b) (on_sig vt d' e b) b (start + n) (S (length b)) start
     | SStruct fs =>
         let* p0 := parse_padding b pos 8 in
         let* d' := inc_struct d in
-        (fix go (l : list sig) (q : N) {struct l} : R N :=
-           match l with
-           | [] => Ok q
-           | f :: r => let* q' := on_sig f d' e b q in go r q'
-           end) fs p0
+        struct_go (fun f q => on_sig f d' e b q) fs p0
     | SVariant =>
         let* (vs, vstart) := variant_sig e b pos in
         let* d' := inc_variant d in
